@@ -152,6 +152,11 @@ _ALGOS = {
     'random': "pg.geno.Random(seed={seed})",
     'regevo': ("ev.regularized_evolution(ev.mutators.Uniform(seed={seed}), population_size=3, "
                "tournament_size=2, seed={seed})"),
+    # Keeps every DNA that was fed back (Last(1000)): a feedback whose effect is
+    # lost shows up as a missing member of the population.
+    'evo-keep-all': ("ev.Evolution(ev.selectors.Random(1, seed={seed}) >> ev.mutators.Uniform(seed={seed}), "
+                     "population_init=(pg.geno.Random(seed={seed}), 2), "
+                     "population_update=ev.selectors.Last(1000))"),
     'dedup-auto': ("pg.geno.Deduping(ev.hill_climb(ev.mutators.Uniform(seed={seed}), batch_size=2, "
                    "init_population_size=2, seed={seed}), "
                    "hash_fn=lambda d: hash(tuple(d.to_numbers())), "
@@ -223,6 +228,8 @@ class _RunLog:
     self.events = []      # per worker lists of (tick, kind, tid, extra)
     self.errors = []
     self.trial_objs = {}  # id(trial) -> trial, as delivered
+    self.group_trials = {}  # group -> {trial id: trial} as delivered
+    self.overlaps = []    # (group, still pending trial, newly delivered trial)
     self.stop = False
 
 
@@ -249,6 +256,15 @@ def _worker(cfg, widx, group, leader, algo, space, name, log, evs, start_evt, fi
       trial = fb.get_trial()
       evs.append((next(tick), 'recv', tid, id(trial)))
       log.trial_objs[id(trial)] = trial
+      # Trials handed to this group earlier must be finished by now: a new
+      # trial is only created for a group whose latest trial is not pending,
+      # and a finished trial never becomes pending again.
+      gkey = group if group is not None else ('thread', widx)
+      mine = log.group_trials.setdefault(gkey, {})
+      for pid, prev in list(mine.items()):
+        if pid < tid and prev.status == 'PENDING' and id(prev) != id(trial):
+          log.overlaps.append((str(gkey), pid, tid))
+      mine[tid] = trial
       if first_evt is not None:
         first_evt.set()
       if log.stop:
@@ -469,7 +485,7 @@ def check_run(obs):
   for t in sorted(delivered):
     for g in delivered[t]:
       per_group.setdefault(g, []).append(t)
-  overl = []
+  overl = list(log.overlaps)
   for g, ts in per_group.items():
     for a, b in zip(ts, ts[1:]):
       if a in auto:
@@ -482,15 +498,15 @@ def check_run(obs):
     # its co-worker holds.
     stuck = [(widx_of[e[0]], e[2]) for e in events if e[1] == 'stuck']
     put(f'group.co-workers-share-the-pending-trial/{scen}', not overl and not stuck,
-        f'(group, trial, next trial) handed out while the previous one was untouched: {overl[:5]}; '
+        f'(group, trial, next trial) handed out while the earlier one was still pending: {overl[:5]}; '
         f'(worker, trial) left alone with a pending trial after its finisher was told the loop '
         f'is over: {stuck[:5]}')
     if overl or stuck:
       return out
   else:
     put(f'group.one-pending-trial-at-a-time/{scen}', not overl,
-        '(group, trial, next trial): the group was handed the next trial although nobody had '
-        f'started to finish the previous one: {overl[:5]}')
+        '(group, trial, next trial): the group was handed the next trial while the earlier one '
+        f'was still pending: {overl[:5]}')
   # --- expected completion per trial -------------------------------------------
   fed = {}
   for a in {id(a): a for a in obs['algos']}.values():
@@ -571,6 +587,12 @@ def check_run(obs):
   else:
     put('algorithm.inner-counts', inf_ == len(done_ids),
         f'wrapped algorithm num_feedbacks={inf_}, expected {len(done_ids)}')
+  if cfg['algo'] == 'evo-keep-all':
+    pop = sorted(d.metadata.get('c16') for a in uniq for d in a.inner.population)
+    want_pop = sorted(t.dna.metadata.get('c16') for t in trials if t.id in done_ids)
+    put('algorithm.population-has-every-feedback', pop == want_pop,
+        f'population of an Evolution that keeps everything holds proposals {pop}, '
+        f'fed back were {want_pop}')
   # --- best trial ----------------------------------------------------------------
   best = result.best_trial
   feas = [t for t in trials if not t.infeasible and t.final_measurement is not None]
@@ -625,7 +647,7 @@ def _scenarios(tier, seed):
           continue   # a finisher that leaves would strand the follower's trial
         k += 1
         n = w + r.randrange(0, 6)
-        algo = r.choice(('random', 'random', 'regevo', 'regevo', 'dedup-auto'))
+        algo = r.choice(('random', 'regevo', 'regevo', 'evo-keep-all', 'evo-keep-all', 'dedup-auto'))
         if lay in _COW and algo == 'dedup-auto' and lay != 'pairs-racing':
           algo = 'regevo'
         adv = r.choice(((0.03, 0.3), (0.1, 0.15), (0.01, 0.5), (0.05, 0.3)))
@@ -679,7 +701,8 @@ def drv_concurrent_sampling(tier, seed):
              'inside a probe wrapping propose/feedback; mixes of done / multi-measurement done / skip / '
              'early-stopping policy / worker break / end_loop; groups: None, str, int, co-worker '
              'pairs (single finisher, racing finishers, done-vs-skip races), one group, mixed; '
-             'algorithms Random(seed), regularized_evolution, Deduping(hill_climb, auto_reward_fn) '
+             'algorithms Random(seed), regularized_evolution, an Evolution that keeps its whole population, '
+             'Deduping(hill_climb, auto_reward_fn); '
              'shared (set up beforehand) or one per worker; staggered and barrier-released starts; '
              + (f'quick: 1 run of every {_QUICK_STRIDE}th scenario of the grid W x mix x layout (offset by seed)'
                 if tier == 'quick' else 'thorough: 2 runs of every scenario of the grid')
